@@ -47,6 +47,21 @@ try:
     except Exception as e:
         meta["junit_error"] = str(e)
     missing = sorted(stable - passed)
+    if missing:
+        # tests use fixed localhost ports: a clash with another run makes them fail for reasons unrelated to the change; the
+        # files of the missing tests are run once more on their own
+        files = sorted({"tests/%s.py" % m.split(".")[1] for m in missing})
+        junit2 = junit + ".retry"
+        sh("cd %s && PYTHONPATH=%s /venv/bin/python -m pytest -q -p no:cacheprovider --timeout=900 --junitxml=%s %s" % (wt, wt, junit2, " ".join(files)))
+        try:
+            for tc in ET.parse(junit2).getroot().iter("testcase"):
+                if not any(ch.tag in ("failure", "error", "skipped") for ch in tc):
+                    passed.add("%s::%s" % (tc.get("classname"), tc.get("name")))
+            os.unlink(junit2)
+        except Exception as e:
+            meta["junit_retry_error"] = str(e)
+        meta["retried_alone"] = files
+        missing = sorted(stable - passed)
     meta["ran"].append({"step": "pinned test suite with the change (57 baseline tests)", "baseline_tests_passing": len(stable & passed),
                         "baseline_tests_not_passing": missing, "seconds": round(time.time() - t0)})
     if os.path.exists(junit):
